@@ -189,3 +189,5 @@ func vB2U(b bool) uint64 {
 	}
 	return 0
 }
+
+func utilSeqPeek(h *handler1) (uint16, bool) { return util.VSeqPeek(h.topicID) }
